@@ -7,6 +7,8 @@ import (
 	"time"
 
 	"github.com/aperturerobotics/util/ccall"
+	"github.com/aperturerobotics/util/csync"
+	"github.com/aperturerobotics/util/routine"
 	"github.com/aperturerobotics/util/keyed"
 	"github.com/aperturerobotics/util/promise"
 )
@@ -83,6 +85,75 @@ func TestPromiseContainerReplace(t *testing.T) {
 			ch := make(chan struct{})
 			close(ch)
 			_, _ = pc.AwaitWithCancelCh(ctx, ch)
+		}
+	})
+}
+
+// TestSharedLockers: one Locker / RLocker value shared by several goroutines.
+func TestSharedLockers(t *testing.T) {
+	var m csync.RWMutex
+	rl, wl := m.RLocker(), m.Locker()
+	var mx csync.Mutex
+	ml := mx.Locker()
+	par(4, func(i int) {
+		for j := 0; j < 200; j++ {
+			rl.Lock()
+			rl.Unlock()
+			if j%10 == 0 {
+				wl.Lock()
+				wl.Unlock()
+			}
+			ml.Lock()
+			ml.Unlock()
+		}
+	})
+}
+
+// TestKeyedReaders: GetKeysWithData / GetKeys / GetKey while the key set changes.
+func TestKeyedReaders(t *testing.T) {
+	ctx, cancel := context.WithCancel(context.Background())
+	defer cancel()
+	k := keyed.NewKeyed[int, int](func(key int) (keyed.Routine, int) {
+		return func(ctx context.Context) error { <-ctx.Done(); return nil }, key
+	}, keyed.WithReleaseDelay[int, int](time.Millisecond))
+	k.SetContext(ctx, true)
+	go par(2, func(i int) {
+		for j := 0; j < 300; j++ {
+			k.SetKey(j%5, true)
+			k.RemoveKey((j + 2) % 5)
+			k.SyncKeys([]int{j % 3, (j + 1) % 3}, false)
+		}
+	})
+	par(3, func(i int) {
+		for j := 0; j < 300; j++ {
+			_ = k.GetKeysWithData()
+			_ = k.GetKeys()
+			_, _ = k.GetKey(j % 5)
+		}
+	})
+}
+
+// TestStateSwapUnchanged: SwapValue that leaves the state unchanged while the context changes.
+func TestStateSwapUnchanged(t *testing.T) {
+	ctx, cancel := context.WithCancel(context.Background())
+	defer cancel()
+	s := routine.NewStateRoutineContainer[int](nil)
+	s.SetStateRoutine(func(ctx context.Context, st int) error { <-ctx.Done(); return nil })
+	s.SetState(1)
+	go par(2, func(i int) {
+		for j := 0; j < 200; j++ {
+			s.SetContext(ctx, j%2 == 0)
+			if j%5 == 0 {
+				s.ClearContext()
+			}
+			s.RestartRoutine()
+		}
+	})
+	par(3, func(i int) {
+		for j := 0; j < 200; j++ {
+			s.SwapValue(nil)
+			s.SwapValue(func(v int) int { return v })
+			_ = s.GetState()
 		}
 	})
 }
